@@ -575,7 +575,7 @@ func runCase(r *mon.Run, i int) {
 	for l, ln := range k.lns {
 		var derr error
 		ln := ln
-		ok := mon.Watchdog(5*time.Second, func() {
+		ok := mon.Watchdog(closeGrace, func() {
 			var c net.Conn
 			c, derr = ln.Dial()
 			if c != nil {
@@ -649,7 +649,17 @@ func runCase(r *mon.Run, i int) {
 			}
 			m := responseFor(buf, q.ID)
 			if m == nil {
+				if !c.isEOF() {
+					// the client's reader has not drained the connection yet: cannot tell "lost" from "not read yet"
+					r.Inconclusive(fmt.Sprintf("case %d: client %d has no response for %s but its connection is still open", i, c.Idx, q.ID))
+					continue
+				}
 				key := "response-lost-" + q.Role
+				if strings.HasPrefix(q.Role, "late-") {
+					// a request that reached a connection the server regarded as idle (keep-alive idle,
+					// or silent for 5 s) while closeIdleConns was closing it
+					key = "response-lost-late-request"
+				}
 				if c.Sit == "pipe" && c.reqs[1].started.Load() {
 					// the connection went on to the second pipelined request, so it was not the
 					// stop check after the first response that dropped it: the connection was cut
